@@ -55,6 +55,19 @@ def known_shape(ev, b, findings):
             walk(ev["obj"])
             if not (names & set(sh["sym_names"])):
                 continue
+        if sh.get("array_shape") == "rank0-or-empty":
+            found = []
+
+            def walk_a(o):
+                if o["k"] == "array" and (not o["dims"] or 0 in o["dims"]):
+                    found.append(o)
+                for e in o["v"] if o["k"] in ("list", "dotted", "vec", "array") else []:
+                    walk_a(e)
+                if o["k"] == "dotted":
+                    walk_a(o["tail"])
+            walk_a(ev["obj"])
+            if not found:
+                continue
         if "st_contains" in sh and sh["st_contains"] not in ev["st"]:
             continue
         return f["feature"]
